@@ -558,6 +558,20 @@ pub fn monitors(
     }
 
     // ---- C13 (store level)
+    if op == "svcrecover" && ok {
+        // service-level recovery with the largest proxy epoch m: every served view is strictly newer than m
+        let m: u64 = toks[1].parse().unwrap_or(0);
+        if after.global_epoch <= m {
+            fails.push(format!("C13:global epoch {} not above recovered max {}", after.global_epoch, m));
+        }
+        for (a, l, p) in proxies {
+            if let Some(p) = p {
+                if p.get_epoch() <= m {
+                    fails.push(format!("C13:proxy {} limit {} served epoch {} <= largest proxy epoch {}", a, l, p.get_epoch(), m));
+                }
+            }
+        }
+    }
     if op == "recover" {
         let e: u64 = toks[1].parse().unwrap_or(0);
         for (a, l, p) in proxies {
